@@ -71,6 +71,7 @@ class DistributionVectorizer(BaseEstimator, TransformerMixin):
             self.mixture_model_.covariances_,
         )
         self.metric_ = distances.hellinger
+        return self
 
     def transform(self, X):
         check_is_fitted(self, ["mixture_model_", "ground_distance_"])
